@@ -24,6 +24,11 @@ def files_for(rnd):
     chunks = [corpus.text(rnd, 100)] + [corpus.rand(rnd, 40000), corpus.text(rnd, 70000), corpus.rand(rnd, 10)]
     buf, stored = ref.build_file(chunks, comp_type=2, hash_type=1, chunk_hash_type=3, level=1)
     out.append(("ra-big", buf, chunks, stored))
+    # padded header (the data does not start where the parsed sections end), with a dictionary
+    chunks = [corpus.text(rnd, 25)] + [corpus.text(rnd, n) for n in (60, 35, 80)]
+    for comp in (2, 0):
+        buf, stored = ref.build_file(chunks, comp_type=comp, hash_type=1, chunk_hash_type=3, level=3, pad=13)
+        out.append(("ra-padded-c%d" % comp, buf, chunks, stored))
     return out
 
 
